@@ -1,6 +1,7 @@
 """C09 - parser order-independence and exact completeness."""
 
 import itertools
+import math
 import random
 
 import pyrsistent
@@ -25,16 +26,20 @@ RULE = ("message sets are produced by really running ProgGen programs (remote su
         "once at the end. A third of the programs run with a second, failing destination and/or raising exception extractors, so the tasks "
         "contain eliot:destination_failure reports and extractor tracebacks; one case in 40 has an action with 250-400 direct children, one in 40 a stream with 1001-1200 top-level actions open at the same "
         "time; 8% of the untyped messages carry a user field named action_status; one Parser value is continued along two suffixes and compared with "
-        "fresh parsers; the lists Parser.add returns are mutated by the caller; a third of the parse_stream inputs are PMaps; in a fifth of the streams the task ids are ones minted elsewhere (upper-case GUIDs, 'Order-n', different tasks whose ids differ only in letter case). part 'deep': one task of 100-700 (thorough: 50-900) nested actions in emission and reversed order. non-trivial = task with >=2 nesting levels or a remote sub-task; distinct by (task shape, order class)")
+        "fresh parsers; the lists Parser.add returns are mutated by the caller; a third of the parse_stream inputs are PMaps; in a fifth of the streams the task ids are ones minted elsewhere (upper-case GUIDs, 'Order-n', different tasks whose ids differ only in letter case). part 'deep': one task of 100-700 (thorough: 50-900) nested actions in emission and reversed order. A quarter of the programs ('okfields') give "
+        "their untyped actions success fields named reason and/or exception (add_success_fields(reason='cache miss', exception='builtins.OSError')), at every depth and next to failed actions. "
+        "Another quarter ('coarse') is logged for real and the recorded dicts are then re-stamped as a coarse clock would have stamped them (all timestamps of a task / of the stream equal; "
+        "rounded down to a 1/64 s, 15.6 ms, 1 ms, 1 s or 1 min tick; pairs or whole groups of same-typed siblings equal), the programs holding runs of action.log('same:type') messages and "
+        "sibling actions of one type; all oracles apply to both classes unchanged (a message is identified by task_uuid and task_level only). non-trivial = task with >=2 nesting levels or a remote sub-task; distinct by (task shape, order class)")
 ASSUMPTIONS = ["message sets come from well-formed tasks (each position used once)"]
 EXHAUSTIVE_NOTE = "permutations and subsets of every task with <= 6 (quick) / <= 7 (thorough) messages are enumerated completely"
 
 
 def plan(tier, seed):
     n = 400 if tier == "quick" else 3000
-    specs = [{"seed": seed, "i": i, "tier": tier} for i in range(n)]
-    specs += [{"part": "deep", "seed": seed, "i": i, "tier": tier, "depth": d} for i, d in enumerate([100, 250, 400, 520, 700] if tier == "quick" else
-                                                                                            [50, 100, 200, 300, 400, 430, 480, 500, 520, 600, 700, 900])]
+    specs = [{"part": "deep", "seed": seed, "i": i, "tier": tier, "depth": d} for i, d in enumerate([100, 250, 400, 520, 700] if tier == "quick" else
+                                                                                           [50, 100, 200, 300, 400, 430, 480, 500, 520, 600, 700, 900])]  # (long cases first)
+    specs += [{"seed": seed, "i": i, "tier": tier} for i in sorted(range(n), key=lambda i: i % 40 != 13)]
     return specs
 
 
@@ -84,6 +89,143 @@ def part_deep(spec):
         mech = "parser-recursion-deep-nesting" if (depth > 440 and all("RecursionError" in p_ for p_ in problems)) else None
         res["violations"].append({"msg": problems[0], "mech": mech, "detail": {"part": "deep", "depth": depth, "problems": problems}})
     return res
+
+
+ENABLE_OKFIELDS = True   # input class: succeeded actions whose success fields are named reason / exception
+ENABLE_COARSE = True     # input class: messages of one task with equal timestamps (coarse clocks)
+
+OK_FIELD_VALUES = {"reason": ["cache miss", "not modified", "retried", "", "builtins.ValueError: no"],
+                   "exception": ["builtins.OSError", "builtins.KeyError", "app.errors.Transient", "OSError"]}
+UNTYPED_ACT_STYLES = ("with", "ctx_finish", "run_finish", "start_task", "pre_created", "ctx_finish_inside")
+UNTYPED_MSG_STYLES = ("log_message", "action.log", "Message.log", "Message.new.write", "Message.bind.write")
+TICKS = [1 / 64.0, 0.0156001, 0.001, 1.0, 60.0]
+
+
+def _mk_act(g, type_, children, style="with", success=None, exc=None):
+    node = {"k": "act", "nid": g._nid(), "style": style, "type": type_, "start": {}, "success": dict(success or {}), "outcome": "ok", "children": children}
+    if exc is not None:
+        node.update(outcome="raise", exc=exc, cross=0)
+    return node
+
+
+def _mk_log(g, type_, **fields):
+    return {"k": "msg", "nid": g._nid(), "style": "action.log", "type": type_, "fields": fields}
+
+
+def add_ok_fields(g, prog, rng):
+    """'reason' and 'exception' are ordinary field names on a success message: a cache lookup says why it missed, a retry wrapper
+    records the class of the error it swallowed. Give them to the untyped actions of the program (typed ones declare their fields),
+    whatever their depth and whether their neighbours fail or not; add one small hand-written request of that kind."""
+    def pick():
+        names = rng.choice([("reason",), ("exception",), ("reason", "exception"), ("exception", "reason")])
+        return {k: rng.choice(OK_FIELD_VALUES[k]) for k in names}
+
+    def walk(nodes):
+        for n in nodes:
+            if n["k"] == "act" and n["style"] in UNTYPED_ACT_STYLES and rng.random() < 0.6:
+                extra = pick()
+                if rng.random() < 0.5:
+                    n["success"].update(extra)
+                else:
+                    n["success"] = dict(extra, **n["success"])  # the two names first, then the others (they may be added in separate calls)
+            walk(n.get("children", ()))
+    walk(prog)
+    if rng.random() < 0.6:
+        style = lambda: rng.choice(["with", "with", "ctx_finish", "run_finish"])
+        attempt1 = _mk_act(g, "app:attempt", [], exc=rng.choice(["OSError", "KeyError", "ValueError"]))
+        both = rng.random() < 0.5
+        attempt2 = _mk_act(g, "app:attempt", [_mk_log(g, "app:probe", shard=3)] if rng.random() < (0.25 if both else 0.5) else [], style=style(),
+                           success=pick() if rng.random() < 0.5 else {})
+        retry = _mk_act(g, "app:retry", [attempt1, attempt2] if both else [attempt2], style=style(), success=dict(pick(), attempts=2))
+        if rng.random() < 0.5:
+            retry = _mk_act(g, "app:request", [retry] + ([_mk_act(g, "app:render", [], success=pick())] if rng.random() < 0.5 else []), style=style(),
+                            success=pick() if rng.random() < 0.5 else {})
+        prog.insert(rng.randint(0, len(prog)), retry)
+
+
+def same_type_siblings(g, prog, rng):
+    """Loops log the same message type many times and start one kind of sub-action per item: make the untyped plain messages among
+    the children of an action share one type, likewise its untyped child actions; add one small hand-written batch of that kind."""
+    def walk(nodes, inside):
+        if inside and rng.random() < 0.6:
+            mt, at = rng.choice(["same:type", "app:item"]), rng.choice(["same:act", "app:ping"])
+            for n in nodes:
+                if n["k"] == "msg" and n["style"] in UNTYPED_MSG_STYLES:
+                    n["type"] = mt
+                    if rng.random() < 0.5:
+                        n["style"] = "action.log"
+                elif n["k"] == "act" and n["style"] in UNTYPED_ACT_STYLES:
+                    n["type"] = at
+        for n in nodes:
+            walk(n.get("children", ()), True)
+    walk(prog, False)
+    if rng.random() < 0.6:
+        shape = rng.choice(["logs", "logs", "logs", "acts", "mixed", "mixed"])
+        if shape == "logs":
+            kids = [_mk_log(g, "same:type", i=i) for i in range(rng.choice([2, 2, 3, 3, 4]))]
+        elif shape == "acts":
+            kids = [_mk_act(g, "app:ping", [], exc=("OSError" if rng.random() < 0.2 else None)) for _ in range(2)]
+        else:
+            kids = []
+            for i in range(rng.randint(2, 3)):
+                kids.append(_mk_log(g, "same:type", i=i))
+                kids.append(_mk_act(g, "app:ping", [_mk_log(g, "same:type", inner=i)] if rng.random() < 0.5 else [], style=rng.choice(["with", "ctx_finish"])))
+            if rng.random() < 0.5:
+                kids.append(_mk_log(g, "same:type", i="last"))
+        prog.insert(rng.randint(0, len(prog)), _mk_act(g, "app:batch", kids, style=rng.choice(["with", "with", "run_finish", "start_task"])))
+
+
+def _sibling_key(m):
+    """(task, parent position, type, status): messages with equal keys are same-typed siblings (an action's start and end messages sit one
+    level below the action's own position)."""
+    lvl = m["task_level"]
+    if m.get("action_type") is not None:
+        return (m["task_uuid"], tuple(lvl[:-2]), "a", m["action_type"], m.get("action_status"))
+    return (m["task_uuid"], tuple(lvl[:-1]), "m", m.get("message_type"), None)
+
+
+def restamp(msgs, mode, rng):
+    """Rewrite the timestamp fields of recorded messages to what a coarser clock would have given. Nothing else is touched; the
+    order of the timestamps never contradicts the order of logging (equal or increasing)."""
+    if mode == "stream":
+        t0 = msgs[0]["timestamp"] if msgs else 0.0
+        for m in msgs:
+            m["timestamp"] = t0
+    elif mode == "task":
+        first = {}
+        for m in msgs:
+            m["timestamp"] = first.setdefault(m["task_uuid"], m["timestamp"])
+    elif mode.startswith("tick"):
+        tick = TICKS[int(mode[4:])]
+        for m in msgs:
+            m["timestamp"] = math.floor(m["timestamp"] / tick) * tick
+    elif mode in ("twins", "groups"):
+        groups = {}
+        for m in msgs:
+            groups.setdefault(_sibling_key(m), []).append(m)
+        for grp in groups.values():
+            if len(grp) < 2:
+                continue
+            if mode == "groups":
+                for m in grp[1:]:
+                    m["timestamp"] = grp[0]["timestamp"]
+            else:
+                start = rng.randint(0, 1) if len(grp) > 2 else 0
+                for a, b in zip(grp[start::2], grp[start + 1::2]):
+                    b["timestamp"] = a["timestamp"]
+    else:
+        raise AssertionError(mode)
+
+
+def timestamp_sharing(msgs):
+    """(messages whose timestamp also occurs on another message of their task, pairs of same-typed siblings with equal timestamps)"""
+    per_task, per_sib = {}, {}
+    for m in msgs:
+        k = (m["task_uuid"], m["timestamp"])
+        per_task[k] = per_task.get(k, 0) + 1
+        k = _sibling_key(m) + (m["timestamp"],)
+        per_sib[k] = per_sib.get(k, 0) + 1
+    return sum(n for n in per_task.values() if n > 1), sum(n * (n - 1) // 2 for n in per_sib.values())
 
 
 def strip(m):
@@ -219,6 +361,15 @@ def run_case(spec):
             a = b
         prog = [a]
         res["counters"]["very_wide_tasks"] = 1
+    # two input classes the generator does not produce by itself (own random stream: the other cases stay what they were)
+    rng2 = random.Random("%s:C09:classes:%d" % (spec["seed"], spec["i"]))
+    okfields = ENABLE_OKFIELDS and spec["i"] % 4 == 1
+    coarse = ENABLE_COARSE and spec["i"] % 4 == 2
+    tags = []
+    if okfields:
+        add_ok_fields(g, prog, rng2)
+    if coarse:
+        same_type_siblings(g, prog, rng2)
     tape = Tape()
     rec = Recorder(tape, "rec")
     bad = None
@@ -251,7 +402,10 @@ def run_case(spec):
         if spec["i"] % 40 == 13:
             # a server with more than a thousand requests in flight: 1001-1200 top-level actions are open at the same time
             from eliot import start_action as _start
-            opened = [_start(action_type="c09:open", n=k) for k in range(rng.randint(1001, 1200))]
+            # (and, in some of these streams, five or ten thousand: a batch job that starts every unit of work before it collects results)
+            lo, hi = {1: (5100, 5400), 3: (10200, 10600)}.get((spec["i"] // 40) % 10, (1001, 1200))
+            opened = [_start(action_type="c09:open", n=k) for k in range(rng.randint(lo, hi))]
+            res["counters"]["streams_with_over_%d_open_tasks" % (lo - lo % 1000)] = 1
             if rng.random() < 0.5:
                 opened.reverse()
             for a in opened:
@@ -264,6 +418,29 @@ def run_case(spec):
     import json as _json
     # as a log reader gets them: decoded from JSON text, so equal strings are distinct objects
     msgs = [_json.loads(_json.dumps(m)) for m in tape.msgs("rec")]
+    if okfields:
+        by_depth = {}
+        for m in msgs:
+            if m.get("action_status") == "succeeded" and ("reason" in m or "exception" in m):
+                d = str(len(m["task_level"]) - 1)
+                by_depth[d] = by_depth.get(d, 0) + 1
+        res["counters"]["succeeded_end_messages_with_reason_or_exception_by_depth"] = by_depth
+        res["counters"]["okfields_tasks_that_also_hold_failed_actions"] = len(
+            set(m["task_uuid"] for m in msgs if m.get("action_status") == "failed") &
+            set(m["task_uuid"] for m in msgs if m.get("action_status") == "succeeded" and ("reason" in m or "exception" in m)))
+        if by_depth:
+            tags.append("the tasks hold %d succeeded actions whose success fields are named reason / exception" % sum(by_depth.values()))
+    if coarse:
+        # the log of a machine whose clock ticks more slowly than the program logs: same messages, same positions, coarser timestamps
+        mode = rng2.choice(["stream", "task", "task", "twins", "twins", "groups"] + ["tick%d" % k for k in range(len(TICKS))])
+        restamp(msgs, mode, rng2)
+        shared, sib_pairs = timestamp_sharing(msgs)
+        res["counters"]["coarse_clock_streams"] = 1
+        res["counters"]["messages_sharing_their_timestamp_within_a_task"] = shared
+        res["counters"]["same_typed_sibling_pairs_with_equal_timestamps"] = sib_pairs
+        res["sets"]["restamp_modes"] = [mode.rstrip("0123456789")]
+        tags.append("timestamps as a coarse clock gives them (%s): %d messages share their timestamp with another message of their task, %d pairs of "
+                    "same-typed siblings have equal timestamps" % (mode if not mode.startswith("tick") else "rounded down to a %g s tick" % TICKS[int(mode[4:])], shared, sib_pairs))
     if spec["i"] % 5 == 2:
         # task ids minted elsewhere (continue_task accepts any text before the '@'): upper-case GUIDs, "Order-42", and pairs of different
         # tasks whose ids differ only in the case of their letters - ids are opaque, distinct strings are distinct tasks
@@ -290,7 +467,7 @@ def run_case(spec):
     c["destination_failure_reports_in_tasks"] = sum(1 for m in msgs if m.get("message_type") == "eliot:destination_failure")
     c["extractor_failure_tracebacks_in_tasks"] = sum(1 for m in msgs if m.get("message_type") == "eliot:traceback" and "extractor for" in str(m.get("reason")))
     # reference: emission order
-    ref = check_order(by_uuid, msgs, None, problems, "emission order") or {}
+    ref = (check_order(by_uuid, msgs, None, problems, "emission order") if len(by_uuid) <= 8000 else None) or {}
     c["orders_fed"] = 1
 
     def nontrivial(tmsgs, cls):
@@ -298,10 +475,12 @@ def run_case(spec):
         if depth >= 3 or any(m.get("action_type") == "eliot:remote_task" for m in tmsgs):
             res["nontrivial"].append(h([task_shape(tmsgs), cls]))
 
-    # (d) parse_stream on an interleaving
+    # (d) parse_stream on an interleaving (for the ten-thousand-task streams: in emission order, which is what keeps them all open at once;
+    # the separate emission-order pass above is then the same input and is what is skipped)
     try:
         inter = list(msgs)
-        rng.shuffle(inter)
+        if len(by_uuid) <= 8000:
+            rng.shuffle(inter)
         drop_uuid = rng.choice(list(by_uuid)) if by_uuid else None
         dropped = None
         if drop_uuid and len(by_uuid[drop_uuid]) > 1:
@@ -340,8 +519,9 @@ def run_case(spec):
     except BaseException as e:
         problems.append("parse_stream raised %r" % (e,))
 
+    huge = len(by_uuid) > 3000  # thousands of tasks open at once: emission order and one shuffled stream are fed, the order battery is for the smaller streams
     # (d') several tasks truncated at once (front-truncated logs, remote halves): every task yielded exactly once, none complete
-    if len(by_uuid) >= 2:
+    if len(by_uuid) >= 2 and not huge:
         for attempt in range(3):
             kept = []
             truncated = set()
@@ -379,7 +559,7 @@ def run_case(spec):
             c["multi_truncated_streams"] = c.get("multi_truncated_streams", 0) + 1
 
     # whole-program interleavings (several tasks)
-    for _ in range(3 if tier == "quick" else 10):
+    for _ in range(0 if huge else 3 if tier == "quick" else 10):
         order = list(msgs)
         rng.shuffle(order)
         check_order(by_uuid, order, ref, problems, "random interleaving of %d tasks" % len(by_uuid))
@@ -485,7 +665,8 @@ def run_case(spec):
         res["sample"] = {"program": prog, "task_sizes": [len(v) for v in by_uuid.values()],
                          "levels": [m["task_level"] for m in msgs][:30]}
     if problems:
-        res["violations"].append({"msg": problems[0], "mech": None, "detail": {"problems": problems[:10], "program": prog}})
+        res["violations"].append({"msg": problems[0] + (" [input: %s]" % "; ".join(tags) if tags else ""), "mech": None,
+                                  "detail": {"problems": problems[:10], "input_classes": tags, "program": prog}})
     return res
 
 
@@ -495,4 +676,15 @@ def finalize(agg, tier):
         return "too few exhaustively explored tasks / subsets"
     if c.get("streams_with_foreign_task_ids", 0) < 20:
         return "too few streams with task ids minted elsewhere"
+    if ENABLE_OKFIELDS:
+        by_depth = c.get("succeeded_end_messages_with_reason_or_exception_by_depth") or {}
+        if sum(by_depth.values()) < 60 or len(by_depth) < 3:
+            return "too few succeeded actions with success fields named reason / exception (by depth: %r)" % (by_depth,)
+        if c.get("okfields_tasks_that_also_hold_failed_actions", 0) < 10:
+            return "too few tasks mixing failed actions with succeeded ones that carry reason / exception fields"
+    if ENABLE_COARSE:
+        if c.get("coarse_clock_streams", 0) < 40 or c.get("messages_sharing_their_timestamp_within_a_task", 0) < 300:
+            return "too few messages with equal timestamps inside one task"
+        if c.get("same_typed_sibling_pairs_with_equal_timestamps", 0) < 100:
+            return "too few same-typed siblings with equal timestamps"
     return None
